@@ -292,6 +292,7 @@ def conc_op(client, idx):
         st.tuples(st.just('popleft')),
         st.tuples(st.just('len')),
         st.tuples(st.just('peekleft')),
+        st.tuples(st.just('reopen')),  # a further handle on the directory comes and goes (unpickling constructs one)
     )
 
 
@@ -301,7 +302,8 @@ def conc_case(draw):
     progs = [[draw(conc_op(c, i)) for i in range(draw(st.integers(1, 4)))] for c in range(n)]
     init = draw(st.lists(st.sampled_from([7, 8, ('B', 250), ('B', 251)]), max_size=3))
     schedule = draw(st.lists(st.tuples(st.integers(0, n - 1), st.one_of(st.integers(1, 8), st.sampled_from([12, 16, 24, 40]))), max_size=14))
-    return {'init': init, 'maxlen': draw(st.sampled_from([None, None, 1, 2])), 'progs': progs, 'schedule': schedule}
+    # 'shared': the threads use ONE Deque object (what FanoutCache.deque / DjangoCache.deque hand out), 'own': one object each
+    return {'init': init, 'maxlen': draw(st.sampled_from([None, None, 1, 2])), 'progs': progs, 'schedule': schedule, 'mode': draw(st.sampled_from(['own', 'own', 'shared']))}
 
 
 def unmkv(v):
@@ -322,6 +324,12 @@ def do_conc(dq, op):
             return ('ok', unmkv(getattr(dq, name)()))
         if name == 'len':
             return ('ok', len(dq))
+        if name == 'getitem':
+            return ('ok', unmkv(dq[op[1]]))
+        if name == 'reopen':
+            other = pickle.loads(pickle.dumps(dq))
+            other.cache.close()
+            return ('ok', None)
     except Exception as exc:
         return ('exc', type(exc).__name__)
     raise HarnessError('unknown op %r' % (op,))
@@ -341,6 +349,10 @@ def make_apply(maxlen):
             exp = ('ok', d[0]) if d else ('exc', 'IndexError')
         elif name == 'len':
             exp = ('ok', len(d))
+        elif name == 'getitem':
+            exp = ('ok', d[op[1]]) if -len(d) <= op[1] < len(d) else ('exc', 'IndexError')
+        elif name == 'reopen':
+            exp = ('ok', None)
         else:
             raise HarnessError('model: unknown op %r' % (op,))
         return tuple(d), exp == res
@@ -364,11 +376,11 @@ class Concurrent(SubCheck):
         maxlen = case['maxlen']
 
         def open_clients(path):
-            caches = [diskcache.Cache(path, timeout=0, eviction_policy='none', disk_min_file_size=8) for _ in range(n)]
+            caches = [diskcache.Cache(path, timeout=0, eviction_policy='none', disk_min_file_size=8) for _ in range(1 if case.get('mode') == 'shared' else n)]
             dqs = [diskcache.Deque.fromcache(c, maxlen=maxlen) for c in caches]
             for v in case['init']:
                 dqs[0].append(mkv(v))
-            return dqs, caches
+            return (dqs * n if case.get('mode') == 'shared' else dqs), caches
 
         calls, sched = run_scheduled(env, case['progs'], case['schedule'], open_clients, do_conc, 'C11', warm=lambda dq: dq.cache._sql, final_ops=[('len',)] + [('popleft',)] * 8)
         if sched.limit_hit:
@@ -382,7 +394,7 @@ class Concurrent(SubCheck):
         if witness is None:
             raise Violation('C11/linearizability', 'no sequential order explains these results (initial %r, maxlen %r):\n%s' % (init_state, maxlen, fmt(calls)))
         nontrivial = any(a.interleaved for a in calls) and len({c.client for c in calls}) >= 2
-        return {'nontrivial': nontrivial, 'classes': ['clients=%d' % n, 'maxlen=%r' % (maxlen,)]}
+        return {'nontrivial': nontrivial, 'classes': ['clients=%d' % n, 'maxlen=%r' % (maxlen,), 'mode=' + case.get('mode', 'own')]}
 
     def selftest(self, env):
         io_selftest(env)
